@@ -1,15 +1,16 @@
-"""KNOWN FINDING C19-ps-priorities: limited PS node (capacity 2) with two priority classes: after a departure the
-waiting customer is not started although a place is free."""
+"""KNOWN FINDING C19-ps-priorities: limited PS node (capacity 2) with two priority classes: when a place frees, the
+customer started is all_individuals[capacity-1] of the priority-flattened list, here a customer that is already
+sharing (it gets a fresh requirement) while the waiting high-priority customer is never started."""
 import ciw
 N = ciw.create_network(
-    arrival_distributions={'H': [ciw.dists.Sequential([2.0, 100.0])], 'L': [ciw.dists.Sequential([0.5, 0.5, 100.0])]},
-    service_distributions={'H': [ciw.dists.Deterministic(5.0)], 'L': [ciw.dists.Sequential([1.0, 5.0, 5.0])]},
+    arrival_distributions={'H': [ciw.dists.Sequential([0.9, 100.0])], 'L': [ciw.dists.Sequential([0.5, 0.2, 100.0])]},
+    service_distributions={'H': [ciw.dists.Deterministic(2.0)], 'L': [ciw.dists.Deterministic(2.0)]},
     number_of_servers=[2],
     priority_classes={'H': 0, 'L': 1},
 )
 Q = ciw.Simulation(N, node_class=ciw.PSNode)
-Q.simulate_until_max_time(4.0)
+Q.simulate_until_max_time(5.0)     # the first L customer left at 4.3; two customers remain, capacity 2
 nd = Q.transitive_nodes[0]
 state = [(i.id_number, i.customer_class, i.with_server) for i in nd.all_individuals]
 print(state)
-assert sum(1 for s in state if s[2]) == min(len(state), 2), "a place of the PS node is unused while a customer waits"
+assert all(s[2] for s in state), "a place of the PS node is unused while a customer waits"
